@@ -85,7 +85,7 @@ def _ast_shape(ast) -> str:
     return ",".join(sorted(G.productions(ast)))
 
 
-TINY_BASES = ["{ }", "[ { } ]", "[ { } { } ]", "{ a = { }; }", "x: { }", "[ [ ] ]", "{ a = [ ]; }", "f { }", "({ })", "[ { } 1 ]", "{ a = { }; b = 1; }", "rec { }", "[ rec { } ]", "let a = { }; in a", "{ a = [ { } ]; }", "with { }; [ ]", "{ inherit ({ }) a; }"]
+TINY_BASES = ["{ }", "[ { } ]", "[ { } { } ]", "{ a = { }; }", "x: { }", "[ [ ] ]", "{ a = [ ]; }", "f { }", "({ })", "[ { } 1 ]", "{ a = { }; b = 1; }", "rec { }", "[ rec { } ]", "let a = { }; in a", "{ a = [ { } ]; }", "with { }; [ ]", "{ inherit ({ }) a; }", "a.b or c", "{ x = a.b or 1; }", "a.b.c or { }", "x: a.b or x", "{ a, b ? 1, ... }: a", "a ++ b ++ [ ]", "if a then { } else [ ]"]
 
 
 def run_shard(sh, cfg: Config):
